@@ -268,7 +268,8 @@ def run_churn(i):
         env["OVNI_VERIF_DELAY"] = str(rng.randint(1, 10 ** 6))
         if rng.random() < 0.3:
             env["OVNI_TMPDIR"] = os.path.join(wd, "tmp")
-        r = core.run_retry([exe, str(rounds), str(k), str(nev)], env=env, cwd=wd, timeout=300)
+        ovl = ["overlap"] if i % 4 >= 2 else []      # the lone thread is freed while the group initialises
+        r = core.run_retry([exe, str(rounds), str(k), str(nev)] + ovl, env=env, cwd=wd, timeout=300)
         if r.timeout:
             res["inconclusive"] = "churn driver timeout"; return res
         if tsan:
@@ -281,23 +282,9 @@ def run_churn(i):
                                 % (r.rc, r.sig, r.err.strip().split("\n")[-1][:200]), r.brief()))
             return res
         res["starts"] = rounds
-        for sd in obs.find_streams(env["OVNI_TRACEDIR"]):
-            tid = int(os.path.basename(sd).split(".")[1])
-            try:
-                evs = obs.decode_file(os.path.join(sd, "stream.obs"))
-            except (obs.DecodeError, OSError) as ex:
-                res["viol"].append(("churn:not-tiled", "stream of thread %d: %s" % (tid, ex), {})); break
-            mine = [e for e in evs if not rt.is_flush_marker(e)]
-            res["streams"] += 1
-            want = [struct.pack("<II", tid, n) for n in range(nev)]
-            got = [bytes(e.payload) for e in mine]
-            if got != want:
-                k_ = next((n for n in range(min(len(got), len(want))) if got[n] != want[n]), min(len(got), len(want)))
-                who = struct.unpack("<II", got[k_])[0] if k_ < len(got) and len(got[k_]) == 8 else None
-                res["viol"].append(("churn:foreign-or-missing-events", "stream of thread %d holds %d events, its thread emitted %d; "
-                                    "first difference at event %d (emitted by thread %s)" % (tid, len(got), nev, k_, who),
-                                    {"rounds": rounds, "k": k, "n": nev}))
-                break
+        res["streams"], v = rt.churn_check(env["OVNI_TRACEDIR"], nev)
+        if v:
+            res["viol"].append((v[0], v[1], {"rounds": rounds, "k": k, "n": nev}))
         if res["streams"] != rounds * (k + 1) and not res["viol"]:
             res["viol"].append(("churn:stream-count", "%d streams for %d threads" % (res["streams"], rounds * (k + 1)), {}))
         return res
@@ -363,7 +350,8 @@ def main(argv):
                    "attr_flush / free, with OVNI_VERIF_DELAY perturbation and OVNI_TMPDIR on/off; per-thread stream and "
                    "metadata compared with that thread's own log. Race runs: 2-16 threads race ovni_proc_init, then "
                    "ovni_proc_fini; losers are parked in a SIGABRT handler and counted. Churn runs: rounds of one thread that "
-                   "lives and is freed followed by 2-8 threads initialising together (TSan and plain builds), every "
+                   "lives and is freed followed by (or at the same time as) 2-8 threads initialising together (TSan and plain "
+                   "builds, OVNI_TMPDIR in half of them), every "
                    "stream checked against its thread's tagged events. distinct_nontrivial = distinct "
                    "thread-completion orders (metadata store order) + distinct (N, init winner, fini winner) triples",
            "samples": [{"threads": c0["nth"], "first_lines": c0["script"].split("\n")[:10]}],
